@@ -38,7 +38,9 @@ func build() []*G {
 	p := p256.NewBlakeSHA256P256()
 	out = append(out, mk("p256", "p256", "modint", "weierstrass", p, p, true, false))
 	qr := p256.NewBlakeSHA256QR512()
-	out = append(out, mk("qr512", "qr512", "modint", "residue", qr, qr, true, false))
+	qg := mk("qr512", "qr512", "modint", "residue", qr, qr, true, false)
+	qg.Grp = "qr:" + qr.P.Text(16) + ":" + qr.Q.Text(16) + ":" + qr.G.Text(16)
+	out = append(out, qg)
 
 	b6 := bn256.NewSuite()
 	g1 := mk("bn256-g1", "bn256g1", "modint", "g1", b6.G1(), b6, false, true)
